@@ -637,14 +637,15 @@ class ComputeGraph(MultiDiGraph):
 
             # history Jacobians
             for d_str, group in delay_groups.items():
-                j_col = 0
                 for fresh_sym, _, fj_idx in group:
                     fj_ncols = (fj_idx[1] - fj_idx[0]) if isinstance(fj_idx, tuple) else 1
                     if not fi_is_vec and fj_ncols == 1:
                         d = sp.diff(f_i, fresh_sym)
                         if d != 0:
+                            # the column is the position of the delayed variable in the state vector,
+                            # not its position within the group of variables that share this delay
+                            j_col = fj_idx[0] if isinstance(fj_idx, tuple) else fj_idx
                             J_hist[d_str][(i_row, j_col)] = d
-                    j_col += fj_ncols
 
             i_row += fi_nrows
 
@@ -707,7 +708,8 @@ class ComputeGraph(MultiDiGraph):
 
         # fill non-zero J0 entries
         for (i_r, j_c), d_expr in sorted(J0_entries.items()):
-            d_str_code = self._expr_to_jac_str(d_expr, sym_to_y_idx, {})
+            # an instantaneous derivative may still contain delayed factors (d/dx of x*x(t-tau)): render them as history reads
+            d_str_code = self._expr_to_jac_str(d_expr, sym_to_y_idx, past_sym_to_str)
             if d_str_code is None:
                 code_gen.add_code_line(
                     f"# WARNING: could not differentiate J0[{i_r},{j_c}] analytically — entry left as 0")
